@@ -25,8 +25,8 @@ const (
 // PointInfo describes one choice point of an execution.
 type PointInfo struct {
 	Kind    PointKind
-	N       int  // number of options
-	AltCost int  // cost of taking any option other than 0
+	N       int // number of options
+	AltCost int // cost of taking any option other than 0
 	Site    string
 }
 
@@ -69,13 +69,13 @@ type Options struct {
 }
 
 type world struct {
-	opt      Options
-	threads  []*thread
-	cur      int // running thread, -1 = sequential (setup / check) mode
-	yield    chan int
-	prefix   []int
-	x        *Exec
-	dead     bool
+	opt        Options
+	threads    []*thread
+	cur        int // running thread, -1 = sequential (setup / check) mode
+	yield      chan int
+	prefix     []int
+	x          *Exec
+	dead       bool
 	sequential bool
 }
 
